@@ -87,6 +87,8 @@ def random_spec(r: random.Random, idx: int) -> dict:
         spec["dump_at"] = r.choice([0, 1, 1, 2, 3])
         if r.random() < 0.5:
             spec["objective_form"] = "lambda"
+        elif r.random() < 0.6:
+            spec["dump_subprocess"] = True       # (module-level objective: restorable in another interpreter)
     # global stop condition (only kinds that are guaranteed to end the run, or runs allowed to be cut)
     x = r.random()
     if x < 0.45:
@@ -514,12 +516,55 @@ def user_specs() -> list[dict]:
             out.append(dict(base, name=f"user{n}", seed=1600 + n, maximize=maximize, reuse_mechanism=True,
                             levels=[{"engine": "SEA", "pop": 8, "gens": 1, "k_elites": 1}, {"engine": "DE", "pop": 5, "gens": 1, "lsc": {"kind": "MetaepochLimit", "n": 2}}],
                             gsc={"kind": "MetaepochLimit", "n": 6}, sprout=json.loads(json.dumps(sprout)), fn="funnels"))
+    # two trees in one process: the same TreeConfig object serving a second tree (option flipped in between); a rival tree
+    # that maps the user configuration classes to other deme classes
+    for k, (levels, hib) in enumerate((([{"engine": "SEA", "pop": 8, "gens": 1}, {"engine": "DE", "pop": 5, "gens": 1, "lsc": {"kind": "MetaepochLimit", "n": 2}}], False),
+                                        ([{"engine": "SEA", "pop": 8, "gens": 1}, {"engine": "CMA", "gens": 2, "lsc": {"kind": "MetaepochLimit", "n": 3}}], True),
+                                        ([{"engine": "DE", "pop": 8, "gens": 1}, {"engine": "SEA", "pop": 5, "gens": 1, "lsc": {"kind": "MetaepochLimit", "n": 3}},
+                                          {"engine": "LOCAL", "maxiter": 3}], False),
+                                        ([{"engine": "DE", "pop": 8, "gens": 1}, {"engine": "SEA", "pop": 5, "gens": 1, "lsc": {"kind": "MetaepochLimit", "n": 3}},
+                                          {"engine": "CMA", "gens": 1, "lsc": {"kind": "MetaepochLimit", "n": 2}}], True))):
+        n += 1
+        out.append(dict(base, name=f"user{n}", seed=1600 + n, maximize=k % 2 == 1, second_tree=True, zoom=k in (0, 3), hibernation=hib, levels=[dict(l) for l in levels],
+                        gsc=[{"kind": "MetaepochLimit", "n": 7}, {"kind": "WeightedEvalLimit", "n": 90, "w": "equal"},
+                             {"kind": "SingularEvalLimit", "n": 80}, {"kind": "WeightedEvalLimit", "n": 60, "w": "root"}][k],
+                        sprout={"kind": "simple", "far": 0.02, "limit": 2}, fn="funnels"))
+    for k, sprout in enumerate(({"kind": "simple", "far": 0.02, "limit": 2}, {"kind": "nbc", "gen": 1.0, "trunc": 1.0, "fil": 0.5, "limit": 2},
+                                {"kind": "composed", "generator": "best", "deme_filters": [], "tree_filters": [["levellimit", 2], ["skipsame"]]})):
+        n += 1
+        out.append(dict(base, name=f"user{n}", seed=1600 + n, maximize=k == 1, drive=["interleaved"], manual=False,
+                        levels=[{"engine": "SEA", "pop": 8, "gens": 1}, {"engine": ["DE", "CMA", "SEA"][k], "pop": 5, "gens": 1, "lsc": {"kind": "DontStop"}}],
+                        gsc={"kind": "MetaepochLimit", "n": 7}, sprout=json.loads(json.dumps(sprout)), fn="funnels"))
+    for k, child in enumerate(({"engine": "CUSTOM", "pop": 5, "gens": 1}, {"engine": "DOC", "pop": 5}, {"engine": "MEMETIC", "pop": 5, "gens": 1})):
+        n += 1      # a tree with user-defined classes snapshotted and restored in a fresh interpreter
+        out.append(dict(base, name=f"user{n}", seed=1600 + n, maximize=k == 1, dump_at=1 + k % 2, dump_subprocess=True,
+                        levels=[{"engine": ["DOC", "SEA", "DE"][k], "pop": 8, "gens": 1}, dict(child, lsc={"kind": "MetaepochLimit", "n": 2})],
+                        gsc={"kind": "MetaepochLimit", "n": 5}, sprout={"kind": "simple", "far": 0.02, "limit": 2}, fn="multi"))
+    for k, child in enumerate(({"engine": "CUSTOM", "pop": 5, "gens": 1}, {"engine": "DOC", "pop": 5}, {"engine": "CUSTOM", "pop": 5, "gens": 2})):
+        n += 1
+        out.append(dict(base, name=f"user{n}", seed=1600 + n, maximize=False, rival_tree=True,
+                        levels=[{"engine": ["SEA", "DOC", "DE"][k], "pop": 8, "gens": 1}, dict(child, lsc={"kind": "MetaepochLimit", "n": 2})],
+                        gsc={"kind": "MetaepochLimit", "n": 5}, sprout={"kind": "simple", "far": 0.02, "limit": 2}, fn="multi"))
+    return out
+
+
+def long_specs(tier: str = "quick") -> list[dict]:
+    """Very long runs of very small trees: hundreds of metaepochs, demes still being sprouted (and improving) after
+    metaepoch 258 - behaviour that only differs after very many steps."""
+    out = []
+    rows = [([{"engine": "SEA", "pop": 6, "gens": 1}, {"engine": "DE", "pop": 4, "gens": 1, "lsc": {"kind": "MetaepochLimit", "n": 3}}], False),
+            ([{"engine": "DE", "pop": 6, "gens": 1}, {"engine": "SEA", "pop": 4, "gens": 1, "lsc": {"kind": "MetaepochLimit", "n": 4}}], True)]
+    for k, (levels, maximize) in enumerate(rows[: 1 if tier == "quick" else 2]):
+        out.append({"name": f"long{k + 1}", "seed": 1700 + k, "dim": 2, "box": "sym", "fn": "multi", "maximize": maximize,
+                    "levels": [dict(l) for l in levels], "gsc": {"kind": "MetaepochLimit", "n": 300 if k == 0 else 600},
+                    "sprout": {"kind": "simple", "far": 0.0005, "limit": 1}, "hibernation": False, "max_consults": 20000, "cpu_cap_s": 600,
+                    "reports": False})
     return out
 
 
 def gen_specs(seed: int, n_random: int, tier: str = "quick") -> list[dict]:
     r = random.Random(seed)
-    specs = repo_test_specs() + sweep_specs(tier) + lifecycle_specs() + engine_specs() + init_specs() + manual_specs() + penalty_specs() + tiny_specs() + partial_specs() + fidelity_specs() + adaptive_specs() + big_specs(tier) + user_specs()
+    specs = repo_test_specs() + sweep_specs(tier) + lifecycle_specs() + engine_specs() + init_specs() + manual_specs() + penalty_specs() + tiny_specs() + partial_specs() + fidelity_specs() + adaptive_specs() + big_specs(tier) + user_specs() + long_specs(tier)
     for i in range(n_random):
         specs.append(random_spec(r, i))
     return specs
